@@ -2,6 +2,7 @@
 import glob
 import json
 import os
+from concurrent.futures import ThreadPoolExecutor
 
 from vf import env, table, core
 
@@ -178,6 +179,16 @@ def _replay(sub, chunk):
         json.dump(rows, f)
 
 
+def _judge(ctx, rows, constants, njobs=6):
+    """table.judge on njobs slices at once: the Trace module evaluates its verdict table in one thread per TLC."""
+    size = max(100, -(-len(rows) // njobs))
+    slices = [rows[i:i + size] for i in range(0, len(rows), size)]
+    with ThreadPoolExecutor(len(slices)) as ex:
+        parts = list(ex.map(lambda sl: table.judge(ctx, "GlobTrace", sl, constants=constants, timeout=1500, workers=2),
+                            slices))
+    return [b for p in parts for b in p]
+
+
 def _kinds(c):
     def kind(t):
         t = t.rstrip("/")
@@ -237,7 +248,7 @@ def run(ctx):
         return sorted((render(h["name"]), h["eg"], h["g"], h["og"]) for h in hits
                       if (h["eg"] or h["g"] or h["og"]) and (on is None or h["name"] in on))
 
-    for row, failed, drift in table.judge(ctx, "GlobTrace", judged, constants=gconsts, timeout=900):
+    for row, failed, drift in _judge(ctx, judged, gconsts):
         pats = [entry_text(e) for e in row["L"]]
         exp = {render(h["name"]): h for h in cases[row["k"]]["exp"]}
         got = {render(h["name"]): h for h in row["hits"]}
